@@ -69,9 +69,9 @@ type Op struct {
 
 // CaseB is a history plus the static sources.
 type CaseB struct {
-	A     []string   `json:"a,omitempty"` // keys defined in data/a.yml
-	B     []string   `json:"b,omitempty"` // keys defined in data/b.yml
-	Pages [][]string `json:"pages"`       // keys defined in the front-matter of p0, p1, p2
+	A     []string   `json:"a,omitempty"`     // keys defined in data/a.yml
+	B     []string   `json:"b,omitempty"`     // keys defined in data/b.yml
+	Pages [][]string `json:"pages"`           // keys defined in the front-matter of p0, p1, p2
 	NoCfg bool       `json:"nocfg,omitempty"` // the filesystem has no theme.yml and no data/ directory
 	Pool  [][]string `json:"pool,omitempty"`  // keys of each shared caller map (values M<j><key>)
 	Ops   []Op       `json:"ops"`
@@ -578,11 +578,38 @@ func genHistory(t *rapid.T, rec *ev.Rec, avoidFM bool) CaseB {
 		}
 		c.Pool = append(c.Pool, keys)
 	}
+	// half of the histories concentrate on sharing: every Fill passes a shared map (mostly #0)
+	// and Fill/Assign are more frequent, so that one map object ends up in several live nodes
+	// and Assigns happen while it is shared
+	sharing := rapid.Bool().Draw(t, "sharing")
+	opKinds := []string{"load", "load", "load", "new", "fill", "fill", "assign", "assign", "assign", "render", "get"}
+	if sharing {
+		opKinds = []string{"load", "load", "new", "fill", "fill", "fill", "fill", "assign", "assign", "assign", "render", "get"}
+	}
 	n := rapid.IntRange(1, 12).Draw(t, "nops")
 	liveN := 1
 	pageOf := []int{-1} // page of each live node, -1 = not loaded
+	if sharing && rapid.IntRange(0, 3).Draw(t, "motif") > 0 {
+		// constructed opening: two siblings made from the root, both filled with the SAME map
+		// object; the random remainder (Assigns, Fills, renders on any node) follows
+		for j := 0; j < 2; j++ {
+			if rapid.Bool().Draw(t, "sibling-loaded") {
+				pg := rapid.IntRange(0, nPages-1).Draw(t, "page")
+				c.Ops = append(c.Ops, Op{Op: "load", Node: 0, Page: pg})
+				pageOf = append(pageOf, pg)
+			} else {
+				c.Ops = append(c.Ops, Op{Op: "new", Node: 0})
+				pageOf = append(pageOf, -1)
+			}
+			liveN++
+		}
+		c.Ops = append(c.Ops, Op{Op: "fill", Node: 1, Kind: "shared", Pool: 0}, Op{Op: "fill", Node: 2, Kind: "shared", Pool: 0})
+		if n > 8 {
+			n = 8
+		}
+	}
 	for i := 0; i < n; i++ {
-		kind := rapid.SampledFrom([]string{"load", "load", "load", "new", "fill", "fill", "assign", "assign", "assign", "render", "get"}).Draw(t, "op")
+		kind := rapid.SampledFrom(opKinds).Draw(t, "op")
 		op := Op{Op: kind, Node: rapid.IntRange(0, liveN-1).Draw(t, "node")}
 		switch kind {
 		case "new":
@@ -593,9 +620,13 @@ func genHistory(t *rapid.T, rec *ev.Rec, avoidFM bool) CaseB {
 			liveN++
 			pageOf = append(pageOf, op.Page)
 		case "fill":
-			op.Kind = rapid.SampledFrom([]string{"shared", "shared", "shared", "map", "struct", "ptr"}).Draw(t, "kind")
+			if sharing {
+				op.Kind = "shared"
+			} else {
+				op.Kind = rapid.SampledFrom([]string{"shared", "shared", "map", "struct", "ptr"}).Draw(t, "kind")
+			}
 			if op.Kind == "shared" {
-				op.Pool = rapid.IntRange(0, len(c.Pool)-1).Draw(t, "pool")
+				op.Pool = rapid.SampledFrom([]int{0, 0, 0, 1}).Draw(t, "pool")
 			} else {
 				op.Keys = genSubset(t, "fill-")
 			}
